@@ -93,6 +93,16 @@ pub fn drive_extreme(seed: u64, n: usize) -> Value {
                   Err(e) => { mix(0xbeef); let msg = e.downcast_ref::<String>().cloned().or_else(|| e.downcast_ref::<&str>().map(|s| s.to_string())).unwrap_or_default();
                               anim_issues.push(json!({"advance": big.to_string(), "what": "panic", "panic": msg})); } }
     }
+    for huge in [1.0e19f32, 2.0e19, 3.0e38, f32::MAX] {
+        let r = catch_unwind(AssertUnwindSafe(|| {
+            let mut a = StateAnimatorBuilder::new().from_state(S4::S1)
+                .on(S4::S1, P4::timeline().duration_seconds(2.0).keyframe(P4::keyframe(1.0).x(8.0))).build();
+            a.advance(0.5); a.advance(huge);
+            (a.current_values().x, a.is_ended())
+        }));
+        match r { Ok((x, e)) => { mix(x.to_bits() as u64); if x != 8.0 || !e { anim_issues.push(json!({"advance": format!("0.5 then {huge}"), "what": "a huge frame after some progress is lost: not ended / not at the terminal values", "x": x.to_string(), "ended": e})); } }
+                  Err(_) => anim_issues.push(json!({"advance": format!("0.5 then {huge}"), "what": "panic"})) }
+    }
     let nbad = bad.len();
     bad.retain(|b| !b.is_null());
     json!({"configs": configs, "evaluations": evals, "digest": format!("{:016x}", digest), "issues": nbad, "first": bad, "animator_issues": anim_issues})
